@@ -97,3 +97,22 @@ func vfPerType_C15(typ string) {
 	vfAssert(!p2, "fragment-link-decorate-no-panic")
 	vfReach("done")
 }
+
+// VerifC15EmptyLiteral: an import spec without a string path ("import foo", source truncated after
+// "import"): go/parser returns a BasicLit with an empty Value. Restoring and decorating must not panic.
+func VerifC15EmptyLiteral() {
+	spec := &dst.ImportSpec{Path: &dst.BasicLit{Kind: token.STRING, Value: ""}}
+	if vfChoice("named", 2) == 1 {
+		spec.Name = &dst.Ident{Name: "foo"}
+	}
+	f := &dst.File{Name: &dst.Ident{Name: "p"}, Decls: []dst.Decl{&dst.GenDecl{Tok: token.IMPORT, Specs: []dst.Spec{spec}}}}
+	r := NewRestorer()
+	var af *ast.File
+	p1 := vfExpectPanic(func() { af, _ = r.RestoreFile(f) })
+	vfAssert(!p1, "restore-empty-literal-no-panic")
+	if p1 {
+		return
+	}
+	p2 := vfExpectPanic(func() { NewDecorator(r.Fset).DecorateFile(af) })
+	vfAssert(!p2, "decorate-empty-literal-no-panic")
+}
